@@ -695,6 +695,15 @@ class BaseSection(base.Sectionable):
                        as well as most attributes of merged Properties on the same
                        tree level in source and destination have to be identical.
         """
+        # Merging changes self and its subsections while it reads from the source;
+        # both trees must not overlap.
+        for node, other in ((self, source_section), (source_section, self)):
+            while node is not None:
+                if node is other:
+                    raise ValueError("odml.Section.merge: cannot merge a Section with itself, "
+                                     "one of its parents or one of its subsections!")
+                node = node.parent
+
         if strict and self.definition is not None and source_section.definition is not None:
             self_def = ''.join(map(str.strip, self.definition.split())).lower()
             other_def = ''.join(map(str.strip, source_section.definition.split())).lower()
@@ -736,9 +745,6 @@ class BaseSection(base.Sectionable):
             elif self._include is not None:
                 self.include = self._include
             return
-
-        if section is self:
-            raise ValueError("odml.Section.merge: cannot merge a Section with itself!")
 
         # Check all the way down the tree if the destination source and
         # its children can be merged with self and its children since
